@@ -186,6 +186,21 @@ check("C15",
       "Lean 4 invariant proof over the write-session model + differential correspondence of fault-injected sessions",
       "DESIGN.md §4 C15")
 
+check("C03",
+      "Theorems (Lean): over a finite file-system model with symbolic links (physical location = link-following "
+      "resolution of the parent; writes follow a final link unless guarded), the repaired extraction step — refuse when "
+      "the resolved location is not under the resolved destination, never write through a final link — keeps EVERY "
+      "mutated location under the destination for every initial file system and every step sequence (arbitrary names, "
+      "kinds, link targets, any length), completed or aborted; kernel-evaluated counter-example for the pinned lexical "
+      "check (chain a->'.', a/b->'..', b/evil; F8, repaired); get_sanitized_output_path results are lexically under the "
+      "canonical destination. Tied by the path streams. Decided on the real file system by exploration: hostile archives "
+      "from the independent writer (names/kinds/targets of the property's alphabet, all single entries, known chains, "
+      "random 2-8 entry archives, three destination spellings, path/stream, empty/populated destination) extracted under "
+      "an audit hook with every mutated path resolved against the jail, plus before/after snapshots. Partial: the FS "
+      "model's tie to the kernel is by those runs, not by proof.",
+      "Lean 4 invariant proof over a symlink file-system model + kernel-checked counter-example + audit-hook exploration of hostile archives",
+      "DESIGN.md §4 C03")
+
 ALL = ["C%02d" % i for i in range(1, 21)]
 REASON_PENDING = "not yet claimed in this revision: model/theorems/correspondence for it are still being built (see DESIGN.md §8.3 staging)"
 
